@@ -177,6 +177,107 @@ def na_in_db_range(n, signed, res, rmax, offset=None):
     na = expected_na(n, signed)
     return na * int(res) + (offset or 0) <= rmax
 
+def _eval_rows(rows, params):
+    """first row (program order) whose guards hold under the concrete parameter values -> ('return', value) | ('raise', name) | ('fall',)"""
+    import math
+    from . import teval
+    def calls(ev, t):
+        f = t[1]
+        args = [ev(a, m) for a in t[2]]
+        kw = {k: ev(v, m) for k, v in (t[3] if len(t) > 3 and t[3] else ())}
+        name = show(f)
+        if name == 'math.isclose': return math.isclose(*args, **kw)
+        if name in ('abs', 'round', 'float', 'min', 'max', 'int', 'bool'):
+            return {'abs': abs, 'round': round, 'float': float, 'min': min, 'max': max, 'int': int, 'bool': bool}[name](*args, **kw)
+        if name in ('math.floor', 'math.ceil', 'math.trunc', 'math.fabs'):
+            return getattr(math, name.split('.')[1])(*args)
+        if f[0] == 'attr' and f[2] == 'bit_length' and not args:
+            return ev(f[1], m).bit_length()
+        raise teval.EvalUnknown(name)
+    m = teval.Model(params=params, names=teval_names(), calls=calls)
+    for (k, gs, v, ln) in rows:
+        if k not in ('return', 'raise'):
+            continue
+        if all(teval.ev(g, m) for g in gs):
+            if k == 'raise':
+                return ('raise', _exc_name(v))
+            return ('return', teval.ev(v, m))
+    return ('fall',)
+
+def teval_names():
+    from . import teval
+    class N(dict):
+        pass
+    n = N({'$': 0})
+    return n
+
+def dec_number_points(program, n, signed, res, rmin, rmax):
+    """decode_number decided on points: its residual for this field shape (terms, never repository code) is evaluated at every raw value
+    near a place where the statement changes its answer -- 0, the sign boundary, the not-available code, all-ones, the range ends and the float
+    tolerance band around them -- at all raw values of fields up to 12 bits, and at 257 evenly spaced ones; at two bit offsets with other
+    bits of the payload set.  -> (problems, edge problems, points) ; raises teval.EvalUnknown / AnalysisError when the residual cannot be evaluated"""
+    import math
+    half = 1 << (n - 1)
+    top = (1 << n) - 1
+    na = expected_na(n, signed)
+    def s_of(q):
+        return q - (1 << n) if signed and q >= half else q
+    def q_of(s_):
+        return s_ + (1 << n) if s_ < 0 else s_
+    lo_raw = -half if signed else 0
+    hi_raw = half - 1 if signed else top
+    kmin, kmax = round(rmin / res), round(rmax / res)
+    pts = set()
+    for p_ in (0, half - 1, half, top, q_of(na) if lo_raw <= na <= hi_raw else 0):
+        for d_ in range(-3, 4):
+            pts.add(p_ + d_)
+    for k_ in (kmin, kmax):
+        for d_ in list(range(-3, 4)) + [-(abs(k_) >> 38) - 1, (abs(k_) >> 38) + 1, -(abs(k_) >> 36), (abs(k_) >> 36), -(abs(k_) >> 30), (abs(k_) >> 30)]:
+            if lo_raw <= k_ + d_ <= hi_raw:
+                pts.add(q_of(k_ + d_))
+    if n <= 12:
+        pts |= set(range(0, top + 1))
+    else:
+        pts |= {(top * i) // 256 for i in range(257)}
+    pts = sorted(q for q in pts if 0 <= q <= top)
+    problems, edges = [], []
+    for off in (0, 5):
+        rows = residual(program, 'decode_number', {'data_raw': D, 'bit_offset': C(off), 'bit_length': C(n), 'signed': C(signed), 'resolution': C(res), 'min_value': C(rmin), 'max_value': C(rmax)})
+        for q in pts:
+            data = (q << off) | ((1 << off) - 1) | (0b101 << (n + off))
+            got = _eval_rows(rows, {'$D': data})
+            s_ = s_of(q)
+            if n >= 2 and s_ == na:
+                want = ('return', None)
+                ok_ = got == want
+            else:
+                val = s_ * res
+                below = val < rmin and not math.isclose(val, rmin, rel_tol=1e-9) and s_ <= kmin - 1 and abs(val - rmin) > abs(res) * 0.5
+                above = val > rmax and not math.isclose(val, rmax, rel_tol=1e-9) and s_ >= kmax + 1 and abs(val - rmax) > abs(res) * 0.5
+                on_min = abs(kmin * res - rmin) <= abs(res) * 1e-6
+                on_max = abs(kmax * res - rmax) <= abs(res) * 1e-6
+                inside = (rmin <= val <= rmax) or (s_ == kmin and on_min) or (s_ == kmax and on_max)
+                if not inside and not ((below and (not on_min or s_ <= kmin - 1)) or (above and (not on_max or s_ >= kmax + 1))):
+                    continue
+                if (below or above) and ((below and not on_min and s_ == kmin - 0 and False)):
+                    continue
+                if below or above:
+                    want = ('raise', 'ValueError'); ok_ = got == want
+                elif inside:
+                    want = ('return', val)
+                    ok_ = got[0] == 'return' and got[1] is not None and not isinstance(got[1], bool) and isinstance(got[1], (int, float)) and (got[1] == val or math.isclose(got[1], val, rel_tol=1e-12))
+                    if not ok_ and s_ in (kmin, kmax) and got == ('raise', 'ValueError'):
+                        edges.append(f"raw {s_} -> {val!r} is rejected although the range end is {rmin if s_ == kmin else rmax}")
+                        continue
+                else:
+                    continue
+            if not ok_:
+                problems.append(f"raw field value {q} (as a number: {s_}) at bit offset {off}: {'None' if want == ('return', None) else want[1] if want[0] == 'return' else 'ValueError'} expected, "
+                                f"{got[1] if got[0] == 'return' else got[-1] if got[0] == 'raise' else 'no result'} found")
+                if len(problems) >= 4:
+                    return problems, edges, len(pts) * 2
+    return problems, sorted(set(edges)), len(pts) * 2
+
 def help_dec(chk, program, rule='HELP-DEC'):
     db = program.db
     tuples = number_tuples(db)
@@ -199,21 +300,11 @@ def help_dec(chk, program, rule='HELP-DEC'):
             r1 = norm_rows(r1, [mp2])
         X = S if signed else R
         line = rows[0][3] if rows else 0
-        # the raw term must be exactly the field's bits: after the rewriting no D may remain
+        # the raw term must be exactly the field's bits: after the rewriting no D may remain; a spelling of the extraction or of the sign
+        # extension that is not read here is decided on points below
         leftover = [show(v) for (_, gs, v, _) in r1 for t in (list(gs) + [v]) for s_ in sym.walk(t) if s_ == D]
-        if leftover:
-            chk.violation(rule, f"{inst}::extract", file=UT, line=line, func='decode_number',
-                          expected=f"raw = (data >> BitOffset) & {(1 << n) - 1}" + (f", sign-extended on bit {n - 1}" if signed else ''),
-                          found=[show(v) for (_, gs, v, _) in rows][:2], detail=users_s)
-            continue
-        if signed and any(s_ == R for (_, gs, v, _) in r1 for t in (list(gs) + [v]) for s_ in sym.walk(t)):
-            chk.violation(rule, f"{inst}::sign", file=UT, line=line, func='decode_number',
-                          expected=f"two's complement: raw - {1 << n} when bit {n - 1} is set, on every use of the raw value",
-                          found=[show(v) for (_, gs, v, _) in r1][:3], detail=users_s)
-            continue
-        if not signed and any(s_ == S for (_, gs, v, _) in r1 for t in (list(gs) + [v]) for s_ in sym.walk(t)):
-            chk.violation(rule, f"{inst}::sign", file=UT, line=line, func='decode_number', expected='no sign extension for an unsigned field', found='sign extension', detail=users_s)
-            continue
+        unread = bool(leftover) or (signed and any(s_ == R for (_, gs, v, _) in r1 for t in (list(gs) + [v]) for s_ in sym.walk(t))) or \
+            (not signed and any(s_ == S for (_, gs, v, _) in r1 for t in (list(gs) + [v]) for s_ in sym.walk(t)))
         scaled_forms = {cn(('binop', '*', X, C(res)))}
         SC = ('name', '$SCALED')
         r2 = norm_rows(r1, [{f: SC for f in scaled_forms}])
@@ -248,11 +339,11 @@ def help_dec(chk, program, rule='HELP-DEC'):
                 shape_ok = False
         exp = [('return', (na_cond,), NONE)] if pre else []
         exp += [('raise', 'scaled < RangeMin', 'ValueError'), ('raise', 'scaled > RangeMax', 'ValueError'), ('return', 'otherwise', 'scaled')]
-        ok = bool(shape_ok)
+        ok = bool(shape_ok) and not unread
         if ok:
             # thresholds: rejecting exactly the grid points outside [RangeMin, RangeMax]
             ok = lowp['bound_ok'](rmin, res) and highp['bound_ok'](rmax, res)
-        if not ok and n < 2:
+        if not ok and n < 2 and not unread:
             # a 1-bit field has no not-available code in the database's convention
             got_na = [g for g in got if g[0] == 'return' and g[2] == NONE]
             if got_na:
@@ -260,10 +351,27 @@ def help_dec(chk, program, rule='HELP-DEC'):
                               expected='a 1-bit field has no not-available code: both values are data', found=f"value {show(got_na[0][1][0])} reported as None",
                               detail=users_s)
                 continue
-        chk.check(ok, rule, inst, file=UT, line=line, func='decode_number',
-                  expected=[str(r) for r in exp], found=[_row_s(r) for r in got],
-                  detail=('' if ok else 'residual decision list differs from the database rows; ') + users_s)
-        if ok:
+        sem_edges = None
+        if not ok:
+            # the decision list is not of the spelling read above: decided on points instead (an alarm needs a raw value that decodes wrongly)
+            from . import teval
+            try:
+                probs, sem_edges, npts = dec_number_points(program, n, signed, res, rmin, rmax)
+            except (teval.EvalUnknown, KeyError, TypeError, ZeroDivisionError, OverflowError) as u_:
+                chk.unknown(rule, inst, f"decode_number residual neither of the recognised decision-list form nor evaluable: {u_}", UT, line)
+                continue
+            chk.unit('decode_number_decided_on_points', 1)
+            chk.check(not probs, rule, inst, file=UT, line=line, func='decode_number', expected=[str(r) for r in exp], found=probs or f"agrees on {npts} raw values around every boundary",
+                      detail=users_s)
+            ok = not probs
+            if ok:
+                chk.check(not sem_edges, 'RANGE-EDGE', inst, file=UT, line=line, func='decode_number',
+                          expected='the raw values at RangeMin and RangeMax decode; one step beyond either end raises', found=sem_edges or 'ok', detail=users_s)
+        else:
+            chk.check(ok, rule, inst, file=UT, line=line, func='decode_number',
+                      expected=[str(r) for r in exp], found=[_row_s(r) for r in got],
+                      detail=('' if ok else 'residual decision list differs from the database rows; ') + users_s)
+        if ok and sem_edges is None:
             # RANGE-EDGE: the range ends themselves are accepted, the next grid point outside is rejected (constant evaluation in float arithmetic)
             kmin, kmax = round(rmin / res), round(rmax / res)
             on_grid_min = abs(kmin * res - rmin) <= abs(res) * 1e-6
@@ -482,8 +590,33 @@ def encode_number_facts(program, n, signed, res):
         facts['witness'] = '; '.join(facts['pieces'])[:300]
     return facts
 
+def _decoder_points(program, n, signed):
+    """decode_number (resolution 1, wide range) evaluated on raw values: -> {raw: outcome}"""
+    rows = residual(program, 'decode_number', {'data_raw': D, 'bit_offset': C(0), 'bit_length': C(n), 'signed': C(signed), 'resolution': C(1),
+                                                'min_value': C(-(1 << 70)), 'max_value': C(1 << 70)})
+    half, top = 1 << (n - 1), (1 << n) - 1
+    pts = sorted({q for q in (0, 1, half - 2, half - 1, half, half + 1, top - 2, top - 1, top) if 0 <= q <= top} | (set(range(top + 1)) if n <= 10 else set()))
+    return {q: _eval_rows(rows, {'$D': q}) for q in pts}, (rows[0][3] if rows else 0)
+
 def decoder_na(program, n, signed):
-    """the constant K of the decoder's `raw == K -> None` row for an n-bit field (resolution 1, wide range)"""
+    """the raw number the decoder reports as absent for an n-bit field (resolution 1, wide range): read off the decision list, or, when that
+    is not of the recognised form, found by evaluating it on raw values"""
+    k, ln = _decoder_na_structural(program, n, signed)
+    if k is not None:
+        return k, ln
+    from . import teval
+    try:
+        out, ln = _decoder_points(program, n, signed)
+    except (teval.EvalUnknown, KeyError, TypeError):
+        return None, ln
+    half = 1 << (n - 1)
+    nones = [q for q, r in out.items() if r == ('return', None)]
+    if len(nones) == 1:
+        q = nones[0]
+        return (q - (1 << n) if signed and q >= half else q), ln
+    return None, ln
+
+def _decoder_na_structural(program, n, signed):
     rows = residual(program, 'decode_number', {'data_raw': D, 'bit_offset': OFF, 'bit_length': C(n), 'signed': C(signed), 'resolution': C(1),
                                                 'min_value': C(-(1 << 70)), 'max_value': C(1 << 70)})
     mp1 = {f: R for f in extract_forms(OFF, n)}
@@ -501,7 +634,20 @@ def decoder_na(program, n, signed):
     return None, rows[0][3] if rows else 0
 
 def decoder_wrap(program, n):
-    """the constant subtracted by the decoder's sign extension"""
+    """the constant subtracted by the decoder's sign extension (read off the residual, else found by evaluating it on raw values with the sign bit set)"""
+    w = _decoder_wrap_structural(program, n)
+    if w is not None:
+        return w
+    from . import teval
+    try:
+        out, _ = _decoder_points(program, n, True)
+    except (teval.EvalUnknown, KeyError, TypeError):
+        return None
+    ws = {q - r[1] for q, r in out.items() if q >= (1 << (n - 1)) and r[0] == 'return' and isinstance(r[1], int) and not isinstance(r[1], bool)}
+    low_ok = all(r[0] != 'return' or r[1] is None or r[1] == q for q, r in out.items() if q < (1 << (n - 1)))
+    return ws.pop() if len(ws) == 1 and low_ok else None
+
+def _decoder_wrap_structural(program, n):
     rows = residual(program, 'decode_number', {'data_raw': D, 'bit_offset': OFF, 'bit_length': C(n), 'signed': C(True), 'resolution': C(1),
                                                 'min_value': C(-(1 << 70)), 'max_value': C(1 << 70)})
     r1 = norm_rows(rows, [{f: R for f in extract_forms(OFF, n)}])
